@@ -189,7 +189,7 @@ func (rec *RecordDefinition) UnmarshalYAML(value *yaml.Node) error {
 }
 
 func (ns *Namespace) UnmarshalYAML(value *yaml.Node) error {
-	if value.Tag != "!!map" {
+	if value.Tag != "!!map" || value.Kind != yaml.MappingNode {
 		return parseError(value, "expected a mapping from <typename>: <type definition>")
 	}
 
@@ -253,7 +253,7 @@ func (fields *Fields) UnmarshalYAML(value *yaml.Node) error {
 }
 
 func (computedFields *ComputedFields) UnmarshalYAML(value *yaml.Node) error {
-	if value.Tag != "!!map" {
+	if value.Tag != "!!map" || value.Kind != yaml.MappingNode {
 		return parseError(value, "expected computed fields to be a map")
 	}
 
@@ -295,7 +295,7 @@ func UnmarshalExpression(value *yaml.Node) (Expression, error) {
 			key := value.Content[0]
 			value := value.Content[1]
 			if key.Tag == "!switch" {
-				if value.Tag != "!!map" {
+				if value.Tag != "!!map" || value.Kind != yaml.MappingNode {
 					return nil, parseError(value, "expected a mapping from <case>: <expression>")
 				}
 				return UnmarshalSwitchExpression(key, value.Content)
@@ -496,7 +496,7 @@ func (steps *ProtocolSteps) UnmarshalYAML(value *yaml.Node) error {
 }
 
 func UnmarshalFieldsOrProtocolStepsYAML[T fieldOrProtocolStep](elements *[]*T, value *yaml.Node) error {
-	if value.Tag != "!!map" {
+	if value.Tag != "!!map" || value.Kind != yaml.MappingNode {
 		return parseError(value, "expected field map")
 	}
 
@@ -628,6 +628,9 @@ func UnmarshalArrayYAML(value *yaml.Node) (*GeneralizedType, error) {
 					*array.Dimensions = append(*array.Dimensions, dim)
 				}
 			case "!!map":
+				if v.Kind != yaml.MappingNode {
+					return nil, parseError(v, "dimensions must be specified as a list of dimension specifications or the number of dimensions")
+				}
 				array.Dimensions = &ArrayDimensions{}
 				for i := 0; i < len(v.Content); i += 2 {
 					k := v.Content[i]
@@ -972,6 +975,9 @@ func UnmarshalEnumValues(flags bool, value *yaml.Node) (*EnumValues, error) {
 		return &vals, nil
 
 	case "!!map":
+		if value.Kind != yaml.MappingNode {
+			goto err
+		}
 		for i := 0; i < len(value.Content); i += 2 {
 			k := value.Content[i]
 			v := value.Content[i+1]
